@@ -137,31 +137,26 @@ def dialect_classes(src):
     if fn is None:
         raise AnalysisError('get_lexer_parser not found in mindsdb_sql/__init__.py')
     out = {}
-
-    def scan(stmts, dialect, imports):
-        for st in stmts:
-            if isinstance(st, ast.ImportFrom):
-                for a in st.names:
-                    imports[a.asname or a.name] = (st.module, a.name)
-            elif isinstance(st, ast.If):
-                d = None
-                t = st.test
-                if (isinstance(t, ast.Compare) and len(t.ops) == 1 and isinstance(t.ops[0], ast.Eq)
-                        and const_str(t.comparators[0]) is not None):
-                    d = const_str(t.comparators[0])
-                scan(st.body, d, dict(imports))
-                scan(st.orelse, None, dict(imports))
-            elif isinstance(st, ast.Assign) and dialect:
-                v = st.value
-                if isinstance(v, ast.Tuple) and len(v.elts) == 2 and all(isinstance(e, ast.Call) for e in v.elts):
-                    names = [dotted(e.func) for e in v.elts]
-                    if all(nm in imports for nm in names):
-                        out[dialect] = (imports[names[0]], imports[names[1]])
-    scan(fn.body, None, _imports(tree))
+    # the function is interpreted for each dialect name (fail-closed AST interpreter): it must return a (lexer, parser) pair of fresh instances
+    from .interp import Interp, Obj, Raised, Env
+    imports = _imports(tree)
+    for st in ast.walk(fn):
+        if isinstance(st, ast.ImportFrom):
+            for a in st.names:
+                imports[a.asname or a.name] = (st.module, a.name)
+    for d in DIALECTS:
+        try:
+            res = Interp().call_function(fn, [d], {}, Env())
+        except Raised:
+            continue
+        except AnalysisError:
+            continue
+        if isinstance(res, tuple) and len(res) == 2 and all(isinstance(x, Obj) for x in res) and all(x.kind in imports for x in res):
+            out[d] = (imports[res[0].kind], imports[res[1].kind])
     for d in DIALECTS:
         if d not in out:
             raise AnalysisError(f'get_lexer_parser: cannot resolve the lexer/parser classes of dialect {d!r} '
-                                f'(expected `lexer, parser = XLexer(), XParser()` under `dialect == {d!r}`)')
+                                f'(get_lexer_parser({d!r}) must return a pair XLexer(), XParser() of imported classes)')
     return out
 
 
